@@ -62,15 +62,19 @@ KeySeqs == UNION {[1..m -> JKeys] : m \in 0..JMaxLen}
 (* form: how the conjunction of "eqle" is written - `p & q`, the list [p, q], pdt.all(p, q), and the same predicate with the  *)
 (* redundant middle conjunct l.k <= r.k as `p & m & q` / pdt.all(p, m, q) (every conjunct must take part on every backend)    *)
 JoinConfigs == {[verb |-> "joinrows", l |-> l, r |-> r, how |-> h, on |-> o, named |-> nm, form |-> fm] :
-                    l \in KeySeqs, r \in KeySeqs, h \in {"inner", "left", "full"}, o \in {"eq", "str", "le", "eqle"}, nm \in BOOLEAN,
+                    l \in KeySeqs, r \in KeySeqs, h \in {"inner", "left", "full"}, o \in {"eq", "str", "le", "eqle", "eqleft", "eqright"}, nm \in BOOLEAN,
                     fm \in {"and", "list", "all", "and3", "all3"}}
-JoinValid(c) == /\ (c.on \in {"le", "eqle"} => c.how # "full")
+JoinValid(c) == /\ (c.on \in {"le", "eqle", "eqleft", "eqright"} => c.how # "full")
+                /\ (c.on \in {"eqleft", "eqright"} => c.named)
                 /\ (c.form # "and" => c.on = "eqle" /\ c.named)
                 /\ (~c.named => (c.on \in {"eqle", "le"} /\ Len(c.l) + Len(c.r) >= 3))      \* the unnamed variant only where it takes another path          \* a full join takes equality predicates only (documented ValueError otherwise)
 
 JoinExpected(c) ==      \* set of <<lid, rid>>, 0 = padded with nulls
     LET match(i, j) == c.l[i] # 0 /\ c.r[j] # 0 /\ (CASE c.on = "le" -> c.l[i] <= c.r[j]
                                                           [] c.on = "eqle" -> c.l[i] = c.r[j] /\ i <= j        \* (l.k == r.k) & (lid <= rid)
+                                                          \* an equality that reads one input only is a predicate like any other, not a join key
+                                                          [] c.on = "eqleft" -> c.l[i] = c.r[j] /\ i = c.l[i]   \* [l.k == r.k, l.lid == l.k]
+                                                          [] c.on = "eqright" -> c.l[i] = c.r[j] /\ j = c.r[j]  \* [l.k == r.k, r.rid == r.k]
                                                           [] OTHER -> c.l[i] = c.r[j])
         inner == {<<i, j>> : i \in DOMAIN c.l, j \in DOMAIN c.r} \cap {p \in (DOMAIN c.l) \X (DOMAIN c.r) : match(p[1], p[2])}
         lpad == {<<i, 0>> : i \in {i \in DOMAIN c.l : \A j \in DOMAIN c.r : ~match(i, j)}}
@@ -122,9 +126,10 @@ JudgeWin(c, out, err) ==
 (* two rows of SOME sorted order.                                                                                                    *)
 ArrRows == {<<a, b>> : a \in {99, 1, 2}, b \in {99, 1, 2}}
 ArrSeqs == UNION {[1..m -> ArrRows] : m \in 0..AMaxLen}
-(* ck: a constant column (mutate(k = 2)) is the FIRST ordering key - it orders nothing (and must not be read as a column position) *)
+(* ck: a constant column (mutate(k = 2); "lit": the literal pdt.lit(2) itself) is the FIRST ordering key - it orders nothing (and *)
+(* must not be read as a column position)                                                                                        *)
 ArrConfigs == {[verb |-> "arrange", rows |-> rs, d1 |-> d1, n1 |-> n1, d2 |-> d2, n2 |-> n2, take |-> tk, ck |-> ck] :
-                  rs \in ArrSeqs, d1 \in BOOLEAN, n1 \in {"first", "last"}, d2 \in BOOLEAN, n2 \in {"first", "last"}, tk \in {0, 2}, ck \in BOOLEAN}
+                  rs \in ArrSeqs, d1 \in BOOLEAN, n1 \in {"first", "last"}, d2 \in BOOLEAN, n2 \in {"first", "last"}, tk \in {0, 2}, ck \in {"no", "col", "lit"}}
 
 JudgeArrange(c, out, err) ==
     IF err # "" THEN "unexpected-error"
